@@ -270,7 +270,15 @@ class Interface(object):
         if key in self.method_id_map:
             c = self.method_id_map[key].parent_class
             if c is None:
-                pass
+                other = self.method_id_map[key]
+                if other is not method and other.function is not method.function:
+                    # another function of another service class with the same
+                    # module, name and method name: dropping it silently would
+                    # make the order of the service list decide who answers
+                    raise ValueError("The method key %r is claimed by both "
+                            "%r and %r. Use the _internal_key_suffix argument "
+                            "to tell them apart." % (key, other.function,
+                                                              method.function))
 
             elif c is s:
                 pass
